@@ -1,5 +1,5 @@
 (* C03 — a gated node runs only while a controlling gate selects it. *)
-From HG Require Import Base Engine Exec EngineProofs Samples.
+From HG Require Import Base Engine Exec EngineProofs GateProofs Samples.
 From stdpp Require Import gmap.
 
 (* Every node the scheduler starts that has controlling gates is named by the standing
@@ -46,6 +46,18 @@ Proof.
   intros [|x|xs] t H; simpl in *; [discriminate | apply Pos.eqb_eq; exact H | apply pos_in_In; exact H].
 Qed.
 Print Assumptions C03_decision_names.
+
+(* Run level: a node whose only controlling gate is CLOSED BY DEFAULT is never scheduled before that gate has completed an
+   execution - in every state a run reaches, any graph, either runner (a standing decision always belongs to a gate with an
+   execution record: invariant DecExec). *)
+Theorem C03_closed_gate_first : forall exec g pv r k st t G gn,
+  steps exec r g pv k (init_state pv) st ->
+  In t (ready_list g st) ->
+  controlled_by g (n_name t) = [G] ->
+  find_node g G = Some gn -> gate_default_open gn = false ->
+  execs (ready_state g st) !! G <> None.
+Proof. exact closed_gate_runs_first. Qed.
+Print Assumptions C03_closed_gate_first.
 
 (* Non-vacuity: closed-by-default gate; before it decides nothing starts, afterwards exactly
    the chosen branch is ready. *)
